@@ -29,12 +29,11 @@ def main(argv):
     sanitize.import_all()
     if san:
         sanitize.install_invariants()
-    use_s3 = getattr(mod, 'S3', True)
-    s3_every = getattr(mod, 'S3_EVERY', 25)
-    base_state = sanitize.global_state() if use_s3 else None
     if not san:
         sanitize.start_coverage()
     cpu_budget = getattr(mod, 'CASE_CPU_S', 120.0) * (20 if san else 1)
+    from vmon.runner import Runner
+    R = Runner(mod, ctx, pid, seed, san=bool(san), cpu_budget=cpu_budget)
     rng = core.rng_for(seed, pid, 'gen')
     n = 0
     for i, case in enumerate(mod.cases(tier, rng)):
@@ -47,36 +46,11 @@ def main(argv):
                 continue
         n += 1
         case = dict(case, _i=i)
-        ctx.case = case
         ctx.cases += 1
         if n in (1, 40, 160, 640, 2560, 10240):
             ctx.samples.append(case)
-        crng = core.rng_for(seed, pid, 'case', i)
-        core.arm(cpu_budget)
-        try:
-            mod.run(case, ctx, crng)
-        except core.CaseTimeout:
-            ctx.check('no-result', False, got='CPU budget of %.0fs exhausted' % cpu_budget)
-        except Exception as e:
-            import traceback
-            tb = traceback.format_exc().splitlines()[-6:]
-            ctx.check('monitor-crashed', False, got='%s: %s' % (type(e).__name__, e), where=tb)
-        finally:
-            core.disarm()
-        if san:
-            for kind, what in sanitize.drain_s1():
-                ctx.check('S1-payload-invariant', False, got=what, kind=kind)
-        if use_s3 and (n % s3_every == 0):
-            now = sanitize.global_state()
-            ch = sanitize.diff_state(base_state, now)
-            ctx.check('S3-global-state', not ch, got=ch)
-            if ch:
-                base_state = now
-    if use_s3:
-        now = sanitize.global_state()
-        ch = sanitize.diff_state(base_state, now)
-        ctx.case = {'k': 'end-of-shard'}
-        ctx.check('S3-global-state', not ch, got=ch)
+        R.step(case)
+    R.finish()
     if san:
         ctx.mon['S1-payload-invariant'] += sanitize.S1_COUNT['bits'] + sanitize.S1_COUNT['poly']
         res['s1'] = dict(sanitize.S1_COUNT)
